@@ -437,6 +437,15 @@ func (c *compiler) IndexNode(node *ast.IndexNode) {
 
 func (c *compiler) SliceNode(node *ast.SliceNode) {
 	c.compile(node.Node)
+	if node.To != nil && node.From != nil {
+		// Operands are evaluated left to right; OpSlice expects the
+		// upper bound below the lower one.
+		c.compile(node.From)
+		c.compile(node.To)
+		c.emit(OpRot)
+		c.emit(OpSlice)
+		return
+	}
 	if node.To != nil {
 		c.compile(node.To)
 	} else {
